@@ -31,6 +31,8 @@ import io
 import time
 import random
 import contextlib
+import signal
+import threading
 from symx.harness import Harness, run_harness, load_known
 from symx.core import sym_and, sym_or, sym_not, implies, ite, SymInt
 from symx.seq import SymStr
@@ -40,10 +42,10 @@ PROPERTY = "C31"
 LEVEL = "model_checking"
 BOUNDS = {
     "quick": {"expressions": "all ASTs of size <= 3 over 5 atoms + seeded sample of sizes 4..6 (about 300)",
-              "string length (full match)": "0..4, every char symbolic in 0..255",
+              "string length (full match)": "0..6, every char symbolic in 0..255",
               "scanner": "string length 4 symbolic (3 for the 4-token vector); every 3rd non-nullable expression, 2/3-token vectors"},
     "thorough": {"expressions": "all ASTs of size <= 4 over 5 atoms + seeded sample of sizes 5..7 (a few thousand)",
-                 "string length (full match)": "0..5, every char symbolic in 0..255",
+                 "string length (full match)": "0..8, every char symbolic in 0..255",
                  "scanner": "string length 5 symbolic (4 for the 4-token vector); every 2nd non-nullable expression, 2/3-token vectors"},
 }
 OUTSIDE = [
@@ -291,6 +293,32 @@ def make_summary(real):
     return pick_transition
 
 
+class CompileTimeout(Exception):
+    """the DFA construction did not finish within the deadline (derivatives keep growing)"""
+
+
+def _with_deadline(fn, seconds):
+    """run fn() under a SIGALRM deadline, preserving the job-level alarm of the runner"""
+    if threading.current_thread() is not threading.main_thread():
+        return fn()
+    old_handler = signal.getsignal(signal.SIGALRM)
+    remaining = signal.alarm(0)
+    t0 = time.time()
+
+    def on_alarm(signum, frame):
+        raise CompileTimeout(f"compile() still running after {seconds}s")
+
+    signal.signal(signal.SIGALRM, on_alarm)
+    signal.alarm(seconds)
+    try:
+        return fn()
+    finally:
+        signal.alarm(0)
+        signal.signal(signal.SIGALRM, old_handler)
+        if remaining:
+            signal.alarm(max(1, int(remaining - (time.time() - t0))))
+
+
 class _RegexHarness(Harness):
     """common part: the subject is one expression (compile(text)) or a token vector (make_scanner)"""
     shim_modules = ("ppci.lang.tools.regex.scanner",)
@@ -308,18 +336,21 @@ class _RegexHarness(Harness):
     def shim_extra(self):
         return {"bisect": py_bisect}
 
+    compile_deadline_s = 60
+
     def compiled(self):
         """(scanner object or None, (transitions, accepts, error)); built once by the REAL parser +
         derivative construction + compile(); a failure is re-raised on every path"""
         if self._prog is None:
             from ppci.lang.tools import regex
-            try:
+            def build():
                 if len(self.texts) == 1:
-                    self._prog = (None, regex.compile(self.texts[0]))
-                else:
-                    with contextlib.redirect_stdout(io.StringIO()):      # make_scanner prints the expressions
-                        sc = regex.make_scanner({f"t{k}": t for k, t in enumerate(self.texts)})
-                    self._prog = (sc, sc._prog)
+                    return (None, regex.compile(self.texts[0]))
+                with contextlib.redirect_stdout(io.StringIO()):      # make_scanner prints the expressions
+                    sc = regex.make_scanner({f"t{k}": t for k, t in enumerate(self.texts)})
+                return (sc, sc._prog)
+            try:
+                self._prog = _with_deadline(build, self.compile_deadline_s)
             except Exception as e:  # noqa
                 self._prog = e
         if isinstance(self._prog, Exception):
@@ -600,12 +631,13 @@ def mk_reject(text):
 
 
 def jobs(tier, seed):
-    n = 4 if tier == "quick" else 5
+    n = 4 if tier == "quick" else 5            # scanner: string length
+    nf = 6 if tier == "quick" else 8           # full match: string lengths 0..nf
     ex = expressions(tier, seed)
     js = []
     csz = 10 if tier == "quick" else 25
     for lo in range(0, len(ex), csz):
-        js.append(("chunk_fullmatch", dict(tier=tier, seed=seed, lo=lo, hi=min(lo + csz, len(ex)), n=n)))
+        js.append(("chunk_fullmatch", dict(tier=tier, seed=seed, lo=lo, hi=min(lo + csz, len(ex)), n=nf)))
     sx = scan_expressions(tier, seed)
     for lo in range(0, len(sx), csz):
         js.append(("chunk_scan", dict(tier=tier, seed=seed, lo=lo, hi=min(lo + csz, len(sx)), n=n, vectors=False)))
